@@ -174,12 +174,17 @@ def resolve(target):
 
 
 # ----------------------------------------------------------------------------- value generators
+FORCE_LONG = False        # set by a caller that wants every free-length sequence / multi-valued receiver long (64 values and more)
+
+
 def gen_value(rng, spec, n=None):
     k = spec[0]
     if k == 'V':
         L = spec[1] if n is None else n
         if isinstance(L, tuple):
             L = L[rng.integers(len(L))]
+        if L is None and FORCE_LONG:
+            L = int([64, 65, 100, 129, 257][rng.integers(5)])
         if L is None:
             L = int(rng.integers(1, 6)) if rng.random() > 0.04 else int([16, 33, 64, 100, 257][rng.integers(5)])     # (now and then a long vector)
         return gen.vec(rng, L, 1e-2, 1e2)
@@ -227,7 +232,7 @@ def gen_value(rng, spec, n=None):
     if k == 'T2':
         return gen.se2(rng, hi=1e3)
     if k in ('OBJ', 'OBJM'):
-        return make_obj(rng, spec[1], 3 if k == 'OBJM' else 1)
+        return make_obj(rng, spec[1], (int([65, 70, 129][rng.integers(3)]) if FORCE_LONG else 3) if k == 'OBJM' else 1)
     raise KeyError(spec)
 
 
